@@ -46,7 +46,7 @@ def _cases(draw, tier):
             v['lt'] = min(v['lt'], v['luq'])
         if 'llq' in v:
             v['llq'] = min(v['llq'], v.get('lt', 0))
-    return {'v': v}
+    return {'v': v, 'prior': draw(genargs.prior_runs())}
 
 
 def strategy(tier):
@@ -59,6 +59,7 @@ def describe(case):
 
 def run_case(case):
     v = case['v']
+    genargs.run_prior(case.get('prior'))
     outdir = genargs.fresh_outdir()
     argv = genargs.build_argv(v, outdir)
     status, code, err = genargs.run_generator(argv, v['seed'])
